@@ -185,6 +185,9 @@ def _execute(ctx, spec):
         if isinstance(spec['churn'], str):
             out.cls('churn:' + spec['churn'])
     out.nontrivial = n >= 2 or 0 in lens or len(atom) >= 1
+    if spec.get('large'):
+        out.cls('large-array:>' + spec['large'])
+    ks = list(range(n)) if n <= 64 else sorted(set(list(range(8)) + list(range(n - 8, n)) + [n // 2, n // 3, (2 * n) // 3 + 1]))
     with ctx.scratch() as d:
         root, apath, other = layout(d)
         ra, items = make_ragged(spec, apath)
@@ -268,7 +271,7 @@ def _execute(ctx, spec):
             if not check_example(out, None, np.asarray(ns['sa']), items, pos, f'{lang}:example'):
                 return out
             if lang == 'numpymemmap':
-                for k in range(n):
+                for k in ks:
                     try:
                         sub = np.asarray(ns['getsubarray'](k))
                     except Exception as e:
@@ -324,7 +327,7 @@ def _execute(ctx, spec):
             return out
         # accessor for every k
         try:
-            for k in range(n):
+            for k in ks:
                 kk = k + origin
                 if lang == 'idl':
                     it2 = dialects.make(lang, cwd, override={'k': kk}).run(code)
@@ -381,6 +384,21 @@ def extra_specs():
                 yield {'lang': lang, 'vt': 'int32', 'it': 'int64', 'atom': list(atom), 'lens': [1, 0, 2], 'bo': '>', 'pm': pm, 'seed': 2, 'positional': True}
 
 
+def large_specs(thorough):
+    # value arrays just above a megabyte and above 64 MiB (index arrays stay small): a reader chosen by size has to be right at every size
+    for lang in LANGS:
+        for bo in '<>':
+            yield {'lang': lang, 'vt': 'int16', 'it': 'int64', 'atom': [], 'lens': [2 ** 19 - 2, 3, 0, 5], 'bo': bo, 'pm': 'rel', 'seed': 1, 'large': '1MiB'}
+            yield {'lang': lang, 'vt': 'float32', 'it': 'int32', 'atom': [2], 'lens': [7, 2 ** 17, 1], 'bo': bo, 'pm': 'rel', 'seed': 1, 'large': '1MiB'}
+        yield {'lang': lang, 'vt': 'float64', 'it': 'int64', 'atom': [], 'lens': [3, 2 ** 23 - 1, 2], 'bo': '>', 'pm': 'rel', 'seed': 1, 'large': '64MiB'}
+        # an index array above a megabyte: 70000 short subarrays (the accessor is tried for a sample of k, see _execute)
+        yield {'lang': lang, 'vt': 'int8', 'it': 'int64', 'atom': [], 'lens': [1, 0, 2] * 23400, 'bo': '>', 'pm': 'rel', 'seed': 1, 'large': 'index>1MiB'}
+        if thorough:
+            yield {'lang': lang, 'vt': 'float64', 'it': 'int64', 'atom': [], 'lens': [3, 2 ** 23 - 1, 2], 'bo': '<', 'pm': 'abs', 'seed': 1, 'large': '64MiB'}
+            yield {'lang': lang, 'vt': 'int32', 'it': 'int32', 'atom': [2, 2], 'lens': [2 ** 20, 1, 2 ** 21, 5], 'bo': '>', 'pm': 'base', 'seed': 1, 'large': '16MiB'}
+            yield {'lang': lang, 'vt': 'uint8', 'it': 'uint32', 'atom': [], 'lens': [2 ** 27, 0, 9], 'bo': '<', 'pm': 'rel', 'seed': 1, 'large': '128MiB'}
+
+
 @st.composite
 def st_spec(draw):
     atom = [draw(st.integers(1, 3)) for _ in range(draw(st.integers(0, 3)))]
@@ -399,6 +417,7 @@ def task_enum(ctx, col, shard, stride):
     enum_search(ctx, col, (s for i, s in enumerate(specs) if i % NSHARDS == shard), lambda s: execute(ctx, s))
     if shard == 0:
         enum_search(ctx, col, extra_specs(), lambda s: execute(ctx, s))
+    enum_search(ctx, col, (s for i, s in enumerate(large_specs(stride == 1)) if i % NSHARDS == shard), lambda s: execute(ctx, s))
 
 
 def task_random(ctx, col, shard, n):
